@@ -236,7 +236,7 @@ impl From<f64> for JsonValue {
         if value.fract() == 0.0 {
             if value >= 0.0 && value < (u64::MAX as f64) {
                 JsonValue::Number(NumberValue::Positive(value as u64))
-            } else if value < 0.0 && value > (i64::MIN as f64) {
+            } else if value < 0.0 && value >= (i64::MIN as f64) {
                 JsonValue::Number(NumberValue::Negative(value as i64))
             } else {
                 JsonValue::Number(NumberValue::Float(value))
